@@ -121,10 +121,6 @@ theorem emittedDeserialize_nobase (hwf : WF S = true) (hwgd : WFGD S = true) {na
       (fun x hx v hv => hS.loc x (by simpa using (List.mem_filter.mp hx).1) v hv) vs hvs
   rw [hsets]
 
-/-- the local `size_` of a class whose size member is called `size` -/
-theorem localName_size {f : Field} (h : f.name = "size") : localName f = "size_" := by
-  unfold localName; rw [h]; decide
-
 /-- a concrete class with a base class (no forward conditions): `Base._deserialize`, the window it returns, then the
     class's own members in a fresh scope -/
 theorem emittedDeserialize_base (hwf : WF S = true) (hwgd : WFGD S = true) {name : String} {d : StructDef}
@@ -198,38 +194,38 @@ theorem emittedDeserialize_base (hwf : WF S = true) (hwgd : WFGD S = true) {name
   -- the window `(size_ - len(buffer), size_)`
   have hwin : ∃ (σ1 : PyState) (e : Nat),
       execItems S T r (emitDeserialize S da)
-        (if (ownFields da).any (·.name == "size") then ({ buffer := payload } : PyState)
+        (if (ownSizeMember da).isSome then ({ buffer := payload } : PyState)
           else ({ buffer := payload } : PyState).set "size_" (.int (payload.length : Int))) = .ok σ1 ∧
-      Sim σ1 st1 [] da.fields ∧ σ1.getInt "size_" = .ok (e : Int) ∧ st1.buf <:+ payload.take e ∧
+      Sim σ1 st1 [] da.fields ∧ σ1.getInt (sizeLocal da) = .ok (e : Int) ∧ st1.buf <:+ payload.take e ∧
       (rebase d st1 d.inherited).buf = st1.buf.drop (e - payload.length) := by
     rcases hcase with ⟨f0, w, rest, hfs, hk0, hsv, hsuf, henv⟩ | ⟨hns, hsv, hsuf⟩
     · have hf0 : f0 ∈ da.fields := by rw [hfs]; simp
-      have hname : f0.name = "size" := by
-        have := (hgda f0 hf0).2.2.1
-        unfold wfgdKind at this
-        simpa [hk0] using this
+      have hown0 : ownSizeMember da = some f0 := by
+        unfold ownSizeMember
+        rw [hownA, hfs]
+        simp [hk0]
+      have hloc0 : sizeLocal da = localName f0 := by unfold sizeLocal; rw [hown0]; rfl
       obtain ⟨σ1, hex1, hS1, -⟩ := hbaseRun
-        (if (ownFields da).any (·.name == "size") then ({ buffer := payload } : PyState)
+        (if (ownSizeMember da).isSome then ({ buffer := payload } : PyState)
           else ({ buffer := payload } : PyState).set "size_" (.int (payload.length : Int))) (by split <;> rfl)
       have h0 := decInt_unsigned_nonneg w payload
       refine ⟨σ1, (decInt w false payload).toNat, hex1, hS1, ?_, hsuf, ?_⟩
       · have := hS1.loc f0 hf0 _ henv
-        rw [localName_size hname] at this
+        rw [hloc0]
         unfold PyState.getInt
         rw [this, Int.toNat_of_nonneg h0]
       · unfold rebase
         simp [hbase, hsv, hol]
-    · have hnosize : (ownFields da).any (·.name == "size") = false := by
-        rw [hownA, List.any_eq_false]
-        intro x hx hxn
-        simp only [beq_iff_eq] at hxn
-        have := (hgda x hx).2.2.1
-        unfold wfgdKind at this
-        cases hk : x.kind <;> simp [hk, hxn] at this
+    · have hnosize : ownSizeMember da = none := by
+        unfold ownSizeMember
+        rw [hownA, List.find?_eq_none]
+        intro x hx
+        cases hk : x.kind <;> simp
         exact hns x hx _ hk
+      have hloc0 : sizeLocal da = "size_" := by unfold sizeLocal; rw [hnosize]
       obtain ⟨σ1, hex1, hS1, hfr⟩ := hbaseRun (({ buffer := payload } : PyState).set "size_" (.int (payload.length : Int))) rfl
       refine ⟨σ1, payload.length, ?_, hS1, ?_, by rw [List.take_length]; exact hsuf, ?_⟩
-      · simp only [hnosize, Bool.false_eq_true, if_false]; exact hex1
+      · simp only [hnosize, Option.isSome_none, Bool.false_eq_true, if_false]; exact hex1
       · have hfresh : ∀ x ∈ da.fields, localName x ≠ "size_" := by
           intro x hx heq
           obtain ⟨hmx, hnx, hkx, -⟩ := hgda x hx
@@ -238,6 +234,7 @@ theorem emittedDeserialize_base (hwf : WF S = true) (hwgd : WFGD S = true) {name
           unfold wfgdKind at hkx
           cases hk : x.kind <;> simp [hk, hxn] at hkx
           exact hns x hx _ hk
+        rw [hloc0]
         unfold PyState.getInt
         rw [hfr _ hfresh, PyState.get_set]
         simp
